@@ -159,6 +159,272 @@ def response_visitor(types, L):
     return b, viol, reach, bad, len(ps)
 
 
+# ---------------------------------------------------------------- what the (mostly derive-generated) serializers write
+def serializer_paths(types, body_rx):
+    """runs a Serialize::serialize body against a recording serializer; returns body, executor, paths. Events: struct:<name>, field:<member>=<source place>,
+    fielderr:<member>, skip:<member>, scalar:<method>=<source>, leaf:<type>=<source place>, end"""
+    b = R.find_body(types, body_rx)
+
+    def target(ex, a):
+        v = a
+        if isinstance(v, Node):
+            v = ex.read_node(v)
+        if isinstance(v, Ptr):
+            return v.node.name
+        if isinstance(v, StrConst):
+            return "lit:" + v.s
+        return str(to_term(v))
+
+    def m_struct(ex, st, callee, args, dty, site):
+        ok = z3.Bool("serialize_struct.ok")
+        name = args[1].s if isinstance(args[1], StrConst) else "?"
+
+        def yes(ex_, st_, tr):
+            _ev(st_, f"struct:{name}")
+            return ex_.mk_variant("Result", 0, "Ok", Opaque(z3.Const("the_struct_serializer", OBJ)))
+        return Fork([(ok, yes), (z3.Not(ok), lambda ex_, st_, tr: ex_.mk_variant("Result", 1, "Err", Opaque(z3.Const("error:struct", OBJ))))])
+
+    def m_field(ex, st, callee, args, dty, site):
+        j = len([e for e in st["events"] if e.kind == "c15" and e.callee.startswith(("field:", "skip:"))])
+        ok = z3.Bool(f"serialize_field{j}.ok")
+        name = args[1].s if isinstance(args[1], StrConst) else "?"
+        if callee.endswith("::skip_field"):
+            def sk(ex_, st_, tr):
+                _ev(st_, f"skip:{name}")
+                return ex_.mk_variant("Result", 0, "Ok", MM.UNIT)
+            return Fork([(ok, sk), (z3.Not(ok), lambda ex_, st_, tr: (_ev(st_, f"fielderr:{name}"), ex_.mk_variant("Result", 1, "Err", Opaque(z3.Const(f"error:field{j}", OBJ))))[1])])
+        tgt = target(ex, args[2])
+
+        def yes(ex_, st_, tr):
+            _ev(st_, f"field:{name}={tgt}")
+            return ex_.mk_variant("Result", 0, "Ok", MM.UNIT)
+
+        def no(ex_, st_, tr):
+            _ev(st_, f"fielderr:{name}")
+            return ex_.mk_variant("Result", 1, "Err", Opaque(z3.Const(f"error:field{j}", OBJ)))
+        return Fork([(ok, yes), (z3.Not(ok), no)])
+
+    def m_end(ex, st, callee, args, dty, site):
+        _ev(st, "end")
+        return ex.mk_variant("Result", 0, "Ok", Opaque(z3.Const("serializer_ok", OBJ)))
+
+    def m_scalar(ex, st, callee, args, dty, site):
+        meth = callee.rsplit("::", 1)[1]
+        _ev(st, f"scalar:{meth}=" + ",".join(target(ex, a) for a in args[1:]))
+        return ex.mk_variant("Result", 0, "Ok", Opaque(z3.Const("serializer_ok", OBJ)))
+
+    def m_leaf(ex, st, callee, args, dty, site):
+        m = re.match(r"^<(.*) as (?:params::_::_serde::)?Serialize>::serialize::<", callee)
+        _ev(st, f"leaf:{m.group(1) if m else '?'}={target(ex, args[0])}")
+        return ex.mk_variant("Result", 0, "Ok", Opaque(z3.Const("serializer_ok", OBJ)))
+    models = [
+        (r"^<_*S as params::_::_serde::Serializer>::serialize_struct$", m_struct),
+        (r"as SerializeStruct>::(serialize_field::<.*|skip_field)$", m_field),
+        (r"as SerializeStruct>::end$", m_end),
+        (r"^<_*S as params::_::_serde::Serializer>::serialize_\w+$", m_scalar),
+        (r"^<.* as (params::_::_serde::)?Serialize>::serialize::<_*S>$", m_leaf),
+    ] + list(SQ.TRY_MODELS)
+    ctx = P.make_ctx(types, extra_models=models, max_paths=4000)
+    ctx.inline = [M.crate_inliner(types)]
+    return b, Executor(ctx)
+
+
+# struct name -> (file::struct key, body regex, [(member, field, optional?)]) : the members JSON-RPC 2.0 gives each object, and the field each is written from
+WIRE_STRUCTS = {
+    "Request": ("types/src/request.rs::Request", r"^fn request::_::<impl at types/src/request\.rs:[\d: ]+>::serialize\(_1: &request::Request<'_>, _2: __S\)",
+                [("jsonrpc", "jsonrpc", False), ("id", "id", False), ("method", "method", False), ("params", "params", True)]),
+    "Notification": ("types/src/request.rs::Notification", r"^fn request::_::<impl at types/src/request\.rs:[\d: ]+>::serialize\(_1: &Notification<'_, T>, _2: __S\)",
+                     [("jsonrpc", "jsonrpc", False), ("method", "method", False), ("params", "params", False)]),
+    "ErrorObject": ("types/src/error.rs::ErrorObject", r"^fn error::_::<impl at types/src/error\.rs:[\d: ]+>::serialize\(_1: &ErrorObject<'_>, _2: __S\)",
+                    [("code", "code", False), ("message", "message", False), ("data", "data", True)]),
+    "SubscriptionPayload": ("types/src/response.rs::SubscriptionPayload", r"^fn response::_::<impl at types/src/response\.rs:[\d: ]+>::serialize\(_1: &SubscriptionPayload<'_, T>, _2: __S\)",
+                            [("subscription", "subscription", False), ("result", "result", False)]),
+    "SubscriptionPayloadError": ("types/src/response.rs::SubscriptionPayloadError", r"^fn response::_::<impl at types/src/response\.rs:[\d: ]+>::serialize\(_1: &SubscriptionPayloadError<'_, T>, _2: __S\)",
+                                 [("subscription", "subscription", False), ("error", "error", False)]),
+}
+
+
+def wire_struct(types, name):
+    key, rx, members = WIRE_STRUCTS[name]
+    b, ex = serializer_paths(types, rx)
+    fidx = {fld: R.field_index(key, fld) for _, fld, _ in members}
+    opt = [(mem, fld) for mem, fld, o in members if o]
+    pc0 = [z3.ULE(z3.BitVec(f"arg1.*.{fidx[fld]}.discr", 64), 1) for _, fld in opt]
+    ps = ex.run(b, pc0=pc0)
+    bad = [(p.kind, p.detail) for p in ps if p.kind != "return"]
+    viol, reach = [], {"all-members": [], "failed": []}
+    if opt:
+        reach["optional-absent"] = []
+    for p in ps:
+        if p.kind != "return":
+            continue
+        pc = p.cond()
+        seq = _seq(p)
+        d = z3.simplify(ex.discr_of(p.ret))
+        if not z3.is_bv_value(d):
+            bad.append(("unsupported", "result discriminant"))
+            continue
+        failed = any(s.startswith("fielderr:") for s in seq) or not any(s.startswith("struct:") for s in seq)
+        if failed:
+            reach["failed"].append(pc)
+            if d.as_long() != 1 or "end" in seq:
+                viol.append((pc, "a failed member write does not end the serialisation with that error", seq))
+            continue
+        if d.as_long() != 0:
+            viol.append((pc, "error result although every write succeeded", seq))
+            continue
+        fields = [s[len("field:"):] for s in seq if s.startswith("field:")]
+        # every combination of the optional members being present / absent
+        import itertools as _it
+        for present in _it.product((True, False), repeat=len(opt)):
+            world = z3.And(pc, *[(z3.BitVec(f"arg1.*.{fidx[fld]}.discr", 64) == (1 if pr else 0)) for (_, fld), pr in zip(opt, present)])
+            absent = {mem for (mem, _), pr in zip(opt, present) if not pr}
+            want = [f"{mem}=arg1.*.{fidx[fld]}" for mem, fld, _ in members if mem not in absent]
+            ok = fields == want and seq[0] == f"struct:{name}" and seq[-1] == "end" and seq.count("end") == 1
+            if ok:
+                reach["all-members" if not absent else "optional-absent"].append(world)
+            else:
+                viol.append((world, f"a {name} with optional members {sorted(absent) or 'all'} {'absent' if absent else 'present'} is written as {fields}, expected {want}", seq))
+    return b, viol, reach, bad
+
+
+def wire_scalars(types):
+    """TwoPointZero -> the string "2.0"; Id / SubscriptionId (untagged): null / the number / the string itself; ErrorCode -> its integer code"""
+    out = []
+    enums = R.source_tables()["enums"]
+    # TwoPointZero
+    b, ex = serializer_paths(types, r"^fn params::<impl at types/src/params\.rs:[\d: ]+>::serialize\(_1: &TwoPointZero, _2: S\)")
+    ps = ex.run(b)
+    bad = [(p.kind, p.detail) for p in ps if p.kind != "return"]
+    viol = [p.cond() for p in ps if p.kind == "return" and _seq(p) != ["scalar:serialize_str=lit:2.0"]]
+    out.append(("TwoPointZero", b, viol, {"written": [p.cond() for p in ps if p.kind == "return"]}, bad, 'the version member is written as the string "2.0"'))
+    # Id and SubscriptionId
+    for ty, rx, want in (("Id", r"^fn params::_::<impl at types/src/params\.rs:[\d: ]+>::serialize\(_1: &Id<'_>, _2: __S\)",
+                          {"Null": r"scalar:serialize_unit=", "Number": r"leaf:u64=arg1\.\*\.Number:0", "Str": r"leaf:Cow<'_, str>=arg1\.\*\.Str:0"}),
+                         ("SubscriptionId", r"^fn params::_::<impl at types/src/params\.rs:[\d: ]+>::serialize\(_1: &SubscriptionId<'_>, _2: __S\)",
+                          {"Num": r"leaf:u64=arg1\.\*\.Num:0", "Str": r"leaf:(Cow<'_, str>|String|std::string::String)=arg1\.\*\.Str:0"})):
+        variants = enums[ty]
+        if sorted(variants) != sorted(want):
+            raise LookupError(f"enum {ty} has variants {variants} - spec needs update")
+        b, ex = serializer_paths(types, rx)
+        dv = z3.BitVec("arg1.*.discr", 64)
+        ps = ex.run(b, pc0=[z3.ULT(dv, len(variants))])
+        bad = [(p.kind, p.detail) for p in ps if p.kind != "return"]
+        viol, reach = [], {v: [] for v in variants}
+        for p in ps:
+            if p.kind != "return":
+                continue
+            seq = _seq(p)
+            for i, v in enumerate(variants):
+                world = z3.And(p.cond(), dv == i)
+                if len(seq) == 1 and re.fullmatch(want[v], seq[0]):
+                    reach[v].append(world)
+                else:
+                    viol.append((world, f"{ty}::{v} is written as {seq}", seq))
+        out.append((ty, b, viol, reach, bad, f"{ty} is written untagged: " + ", ".join(f"{v} -> {'null' if 'unit' in w else 'its own ' + ('number' if 'u64' in w else 'string')}" for v, w in want.items())))
+    # ErrorCode -> serialize_i32(self.code())
+    b, ex = serializer_paths(types, r"^fn error::<impl at types/src/error\.rs:[\d: ]+>::serialize\(_1: &ErrorCode, _2: S\)")
+    ex.ctx.models.insert(0, (re.compile(r"^ErrorCode::code$"), lambda ex_, st, c, a, d, s: z3.BitVec("the_code_of_this_kind", 32)))
+    ps = ex.run(b)
+    bad = [(p.kind, p.detail) for p in ps if p.kind != "return"]
+    viol = [p.cond() for p in ps if p.kind == "return" and _seq(p) != ["scalar:serialize_i32=the_code_of_this_kind"]]
+    out.append(("ErrorCode", b, viol, {"written": [p.cond() for p in ps if p.kind == "return"]}, bad, "an error kind is written as the integer ErrorCode::code() gives for it (decided for all codes by the Kani harnesses)"))
+    return out
+
+
+def response_serializer(types):
+    """<Response as Serialize>::serialize against a recording serializer: the members written, for every shape of the response and every failure point"""
+    b = R.find_body(types, r"^fn response::<impl at types/src/response\.rs:[\d: ]+>::serialize\(_1: &response::Response<'_, T>, _2: S\)")
+    fi = {f: R.field_index("types/src/response.rs::Response", f) for f in ("jsonrpc", "payload", "id")}
+    payload_variants = R.source_tables()["enums"]["ResponsePayload"]
+
+    def target(ex, a):
+        v = a
+        if isinstance(v, Node):
+            v = ex.read_node(v)
+        return v.node.name if isinstance(v, Ptr) else str(to_term(v))
+
+    def m_struct(ex, st, callee, args, dty, site):
+        ok = z3.Bool("serialize_struct.ok")
+        name = args[1].s if isinstance(args[1], StrConst) else "?"
+
+        def yes(ex_, st_, tr):
+            _ev(st_, f"struct:{name}")
+            return ex_.mk_variant("Result", 0, "Ok", Opaque(z3.Const("the_struct_serializer", OBJ)))
+        return Fork([(ok, yes), (z3.Not(ok), lambda ex_, st_, tr: ex_.mk_variant("Result", 1, "Err", Opaque(z3.Const("error:struct", OBJ))))])
+
+    def m_field(ex, st, callee, args, dty, site):
+        j = len([e for e in st["events"] if e.kind == "c15" and e.callee.startswith("field:")])
+        ok = z3.Bool(f"serialize_field{j}.ok")
+        name = args[1].s if isinstance(args[1], StrConst) else "?"
+        tgt = target(ex, args[2])
+
+        def yes(ex_, st_, tr):
+            _ev(st_, f"field:{name}={tgt}")
+            return ex_.mk_variant("Result", 0, "Ok", MM.UNIT)
+
+        def no(ex_, st_, tr):
+            _ev(st_, f"fielderr:{name}")
+            return ex_.mk_variant("Result", 1, "Err", Opaque(z3.Const(f"error:field{j}", OBJ)))
+        return Fork([(ok, yes), (z3.Not(ok), no)])
+
+    def m_end(ex, st, callee, args, dty, site):
+        _ev(st, "end")
+        return ex.mk_variant("Result", 0, "Ok", Opaque(z3.Const("serializer_ok", OBJ)))
+    models = [
+        (r"^<S as params::_::_serde::Serializer>::serialize_struct$", m_struct),
+        (r"as SerializeStruct>::serialize_field::<", m_field),
+        (r"as SerializeStruct>::end$", m_end),
+    ] + list(SQ.TRY_MODELS)
+    ctx = P.make_ctx(types, extra_models=models, max_paths=2000)
+    ctx.inline = [M.crate_inliner(types)]
+    ex = Executor(ctx)
+    has_version = z3.BitVec(f"arg1.*.{fi['jsonrpc']}.discr", 64) == 1
+    pay = z3.BitVec(f"arg1.*.{fi['payload']}.discr", 64)
+    # a well-typed value: the two enums hold one of their variants
+    ps = ex.run(b, pc0=[z3.ULE(z3.BitVec(f"arg1.*.{fi['jsonrpc']}.discr", 64), 1), z3.ULT(pay, len(payload_variants))])
+    bad = [(p.kind, p.detail) for p in ps if p.kind != "return"]
+    viol, reach = [], {"success": [], "error": [], "failed": [], "no-version": []}
+    for p in ps:
+        if p.kind != "return":
+            continue
+        pc = p.cond()
+        seq = _seq(p)
+        d = z3.simplify(ex.discr_of(p.ret))
+        if not z3.is_bv_value(d):
+            bad.append(("unsupported", "result discriminant"))
+            continue
+        failed = any(s.startswith("fielderr:") for s in seq) or not any(s.startswith("struct:") for s in seq)
+        if failed:
+            reach["failed"].append(pc)
+            # a serializer error is handed on and the object is not closed
+            if d.as_long() != 1 or "end" in seq:
+                viol.append((pc, "a failed member write does not end the serialisation with that error", seq))
+            continue
+        if d.as_long() != 0:
+            viol.append((pc, "error result although every write succeeded", seq))
+            continue
+        fields = [s[len("field:"):] for s in seq if s.startswith("field:")]
+        names = [f.split("=", 1)[0] for f in fields]
+        # the members, in terms of the response's own shape
+        for which, idx in (("success", payload_variants.index("Success")), ("error", payload_variants.index("Error"))):
+            member = "result" if which == "success" else "error"
+            for ver in (True, False):
+                world = z3.And(pc, pay == idx, has_version if ver else z3.Not(has_version))
+                want = (["jsonrpc"] if ver else []) + ["id", member]
+                ok = (sorted(names) == sorted(want) and seq[0] == "struct:Response" and seq[-1] == "end" and seq.count("end") == 1
+                      and all(re.fullmatch(rf"arg1\.\*\.{fi['id']}", f.split("=", 1)[1]) for f in fields if f.startswith("id="))
+                      and all(re.fullmatch(rf"arg1\.\*\.{fi['payload']}\.{'Success' if which == 'success' else 'Error'}:0", f.split("=", 1)[1]) for f in fields if f.startswith(member + "="))
+                      and all(re.fullmatch(rf"arg1\.\*\.{fi['jsonrpc']}\.Some:0", f.split("=", 1)[1]) for f in fields if f.startswith("jsonrpc=")))
+                if ok:
+                    reach[which].append(world)
+                    if not ver:
+                        reach["no-version"].append(world)
+                else:
+                    viol.append((world, f"a {which} response {'with' if ver else 'without'} a version member is written as members {fields}", seq))
+    return b, viol, reach, bad
+
+
 def field_names(types):
     """the key visitor: "jsonrpc" / "result" / "error" / "id" select their field, every other key is ignored"""
     b = R.find_body(types, r"^fn response::<impl at types/src/response\.rs:[\d: ]+>::deserialize::<impl at [^>]*>::deserialize::<impl at [^>]*>::visit_str\(_1: FieldVisitor, _2: &str\)")
@@ -243,13 +509,14 @@ def obligations(tier, seed):
     L = 4 if tier == "quick" else 5
     b, viol, reach, bad, npaths = response_visitor(types, L)
     bounds = f"member sequences of <= {L} members over {{jsonrpc, result, error, id, other}}, in any order / duplication; every read outcome (value / null / error) of every member; key errors"
-    if bad or not all(reach.values()):
+    reach_l = R.live_reach(viol, reach, bad)
+    if bad or not all(reach_l):
         out.append(R.Result(engine="mirsym", name="visitor:Response::visit_map", kind="kernel", status="unsupported" if bad else "vacuous",
                             detail=str(bad[:1] or {k: len(v) for k, v in reach.items()})[:300], bodies=[b.name]))
     else:
         viol.sort(key=lambda x: len(x[2]))
         q = z3.Or(*[v[0] for v in viol[:80]]) if viol else z3.BoolVal(False)
-        r = R.decide("visitor:Response::visit_map:accepts-exactly-valid-objects", "kernel", q, [z3.Or(*v[:200]) for v in reach.values()], bodies=[b.name], bounds=bounds,
+        r = R.decide("visitor:Response::visit_map:accepts-exactly-valid-objects", "kernel", q, [z3.Or(*v[:200]) for v in reach_l], bodies=[b.name], bounds=bounds,
                      desc="accepted iff: no read error, exactly one id, exactly one of result/error, at most one jsonrpc, no known member twice; the accepted response carries the id "
                           "member's value and the result/error member's value", extra={"paths": npaths}, keydetail="response-visitor")
         if r["status"] == "violated":
@@ -259,10 +526,60 @@ def obligations(tier, seed):
             r["replay"] = {"scenario": "c15_response", "args": {"text": _native_text(keys, seq)}}
         out.append(r)
     b, viol, reach, bad = field_names(types)
-    if bad or not reach:
+    reach_l = R.live_reach(viol, reach, bad)
+    if bad or not reach_l[0]:
         out.append(R.Result(engine="mirsym", name="kernel:Response::Field::visit_str", kind="kernel", status="unsupported", detail=str(bad[:1])[:300], bodies=[b.name]))
     else:
-        out.append(R.decide("kernel:Response::Field::visit_str:member-names", "kernel", z3.Or(*viol) if viol else z3.BoolVal(False), [z3.Or(*reach)], bodies=[b.name],
+        out.append(R.decide("kernel:Response::Field::visit_str:member-names", "kernel", z3.Or(*viol) if viol else z3.BoolVal(False), [z3.Or(*reach_l[0])], bodies=[b.name],
                             desc='the keys "jsonrpc", "result", "error", "id" select their member; every other key is ignored', bounds="all key strings (one Boolean per compared literal)",
                             keydetail="response-field-names", replay=dict(scenario="c15_response", vars={}, fixed={"battery": True}, region=z3.BoolVal(True))))
+    b, viol, reach, bad = response_serializer(types)
+    reach_l = R.live_reach(viol, reach, bad)
+    if bad or not all(reach_l):
+        out.append(R.Result(engine="mirsym", name="order:Response::serialize", kind="order", status="unsupported" if bad else "vacuous",
+                            detail=str(bad[:1] or {k: len(v) for k, v in reach.items()})[:300], bodies=[b.name]))
+    else:
+        r = R.decide("order:Response::serialize:members", "order", z3.Or(*[v[0] for v in viol]) if viol else z3.BoolVal(False), [z3.Or(*v) for v in reach_l], bodies=[b.name],
+                     desc='what is written for a response is one object "Response" with exactly: jsonrpc (iff the value has a version), id = the value\'s own id, and exactly one of '
+                          'result / error = the value\'s own payload; a failing member write ends the serialisation with that error and the object is not closed',
+                     bounds="every shape of the response (version present or not, success or error) and every failure point of the serializer it is given (generic S: any serde serializer)",
+                     keydetail="response-serializer", replay=dict(scenario="c15_serialize", vars={}, fixed={}, region=z3.BoolVal(True)))
+        if r["status"] == "violated":
+            s_ = z3.Solver()
+            for pc, why, seq in viol:
+                s_.push()
+                s_.add(pc)
+                if s_.check() == z3.sat:
+                    r["detail"] = f"{why}: {seq}"
+                    s_.pop()
+                    break
+                s_.pop()
+        out.append(r)
+    def first_sat(viol):
+        s_ = z3.Solver()
+        for v in viol:
+            pc, why, seq = v if isinstance(v, tuple) else (v, "unexpected writes", [])
+            s_.push()
+            s_.add(pc)
+            if s_.check() == z3.sat:
+                s_.pop()
+                return f"{why}: {seq}"
+            s_.pop()
+        return ""
+    units = [(f"order:{n}::serialize:members", ) + wire_struct(types, n) + (f"a {n} is written as one object with exactly the members JSON-RPC 2.0 gives it - "
+              + ", ".join(f"{mem}{' (only when present)' if o else ''}" for mem, _, o in WIRE_STRUCTS[n][2]) + " - each from the field of that name, in that order; a failing write ends the serialisation with that error",)
+             for n in WIRE_STRUCTS]
+    units += [(f"kernel:{ty}::serialize", b_, viol_, reach_, bad_, desc_) for ty, b_, viol_, reach_, bad_, desc_ in wire_scalars(types)]
+    for name, b, viol, reach, bad, desc in units:
+        reach_l = R.live_reach(viol, reach, bad)
+        if bad or not all(reach_l):
+            out.append(R.Result(engine="mirsym", name=name, kind="order", status="unsupported" if bad else "vacuous", detail=str(bad[:1] or {k: len(v) for k, v in reach.items()})[:300], bodies=[b.name]))
+            continue
+        qs = R._viol_terms(viol)
+        r = R.decide(name, "order", z3.Or(*qs) if qs else z3.BoolVal(False), [z3.Or(*v) for v in reach_l], bodies=[b.name], desc=desc,
+                     bounds="every presence combination of the optional members / every variant; every failure point of the (generic) serializer; derive-generated code as rustc expanded it",
+                     keydetail="wire-serializer:" + name.split(":")[1], replay=dict(scenario="c15_serialize", vars={}, fixed={}, region=z3.BoolVal(True)))
+        if r["status"] == "violated":
+            r["detail"] = first_sat(viol)
+        out.append(r)
     return _native_battery(out, "c15_response", [{"battery": True}], "native-member-sequences")
